@@ -471,7 +471,7 @@ impl W3Exec {
             }
         }
         self.prev = post;
-        Ok(())
+        self.check_queue_len()
     }
 
     fn submit_other(&mut self, ins: Instr) -> Result<(), Violation> {
@@ -502,6 +502,19 @@ impl W3Exec {
         }
         self.pending.push(ins);
         self.prev = post;
+        self.check_queue_len()
+    }
+
+    fn check_queue_len(&self) -> Result<(), Violation> {
+        if has(&self.cfg, w3mon::INVISIBLE) || has(&self.cfg, w3mon::BELIEF) || has(&self.cfg, w3mon::GRID) {
+            let q = guard(|| self.env.n_queued()).unwrap_or(usize::MAX);
+            if q != self.pending.len() {
+                let class = if has(&self.cfg, w3mon::GRID) { "rejected-left-trace" } else if has(&self.cfg, w3mon::BELIEF) { "step-clause" } else { "visible-before-step" };
+                return Err(self
+                    .viol(class, "instruction queue length", self.pending.len().to_string(), q.to_string())
+                    .detail("the queue must hold exactly the instructions submitted since the previous step (a rejected creation queues nothing)".into()));
+            }
+        }
         Ok(())
     }
 
@@ -587,6 +600,13 @@ impl W3Exec {
         let post_b: Vec<BookObs> = post.iter().map(|o| o.book.clone()).collect();
 
         // ---- direct clauses of C08 (model-free) ----
+        if has(&cfg, w3mon::BELIEF) || has(&cfg, w3mon::INVISIBLE) {
+            let q = guard(|| self.env.n_queued()).unwrap_or(usize::MAX);
+            if q != 0 {
+                let class = if has(&cfg, w3mon::BELIEF) { "step-clause" } else { "visible-before-step" };
+                return Err(self.viol(class, "instruction queue length after step", "0".into(), q.to_string()).detail("after a step the instruction queue must be empty".into()));
+            }
+        }
         if has(&cfg, w3mon::BELIEF) {
             for a in 0..cfg.assets {
                 if post_b[a].t != start + cfg.step_size {
